@@ -178,6 +178,7 @@ def gen_case(ctx, r, model, maxlen, allowed=None, avoid=()):
     """one history; `model` answers with the state after every op.  `allowed`: restrict the op kinds
     (the weighted-dataset harness supports a subset); `avoid`: triggers of open findings the stream keeps away from"""
     ops, base = [], 0
+    rng_seen = False      # after a shuffle the generator knows the partitioning but not the element order the real code drew
 
     def emit(text, model_text=None):
         resp = model.send(model_text or text)
@@ -223,7 +224,9 @@ def gen_case(ctx, r, model, maxlen, allowed=None, avoid=()):
         if raw:
             # inputs independent but labels shared: the C++ modifies the inputs and then throws (finding F-C03-17)
             # (g++ evaluates the two splice() arguments of LabeledData::splice right to left, so "01" is a trigger as well)
-            if "partial-mutation" in avoid and A["ind"] in ("10", "01"):
+            # after a shuffle in this history the flags seen here may differ from those at run time (binarySubProblem shares
+            # the batches of two classes: which ones depends on the drawn order), so no raw operation is issued then
+            if "partial-mutation" in avoid and (A["ind"] in ("10", "01") or rng_seen):
                 ctx.count("raw_ops_avoided_open_finding")
                 continue
             ctx.hist("raw_op_on", {"11": "independent", "00": "both-shared", "10": "labels-shared", "01": "inputs-shared"}.get(A["ind"], A["ind"]))
@@ -278,9 +281,11 @@ def gen_case(ctx, r, model, maxlen, allowed=None, avoid=()):
             ctx.hist("reorder_index_list", "non-permutation" if sorted(perm) != list(range(n)) else "identity" if perm == sorted(perm) else "permutation")
             res = emit(f"reorder {a} " + " ".join(map(str, perm)))
         elif kind == "shuffle":
+            rng_seen = True
             seed = r.below(100000)
             res = emit(f"shuffle {a} {seed}", f"shuffle {a} {seed} ! " + " ".join(map(str, range(n))))
         elif kind == "ushuf":
+            rng_seen = True
             seed = r.below(100000)
             tgt = r.below(4)
             res = emit(f"ushuf {a} {tgt} {seed}", f"ushuf {a} {tgt} {seed} ! " + " ".join(map(str, range(n))))
@@ -356,6 +361,7 @@ def gen_case(ctx, r, model, maxlen, allowed=None, avoid=()):
                 sz = vs[v]
                 if sz:
                     k = r.choice([0, 1, sz, r.range(0, sz)])
+                    rng_seen = True
                     seed = r.below(100000); tgt = r.below(2)
                     res = emit(f"vrand {v} {tgt} {k} {seed}", f"vrand {v} {tgt} {k} {seed} ! " + " ".join(map(str, range(k))))
         if res is not None:
